@@ -452,10 +452,7 @@ func simC03Sets(c *Ctx) {
 	algNames := []string{"Union", "Intersection", "Subtract", "SymmetricDifference"}
 	for st := 0; st < steps; st++ {
 		kind := enabled[c.G(len(enabled))]
-		switch kind {
-		case 0, 1: // Add
-			i := pickVS()
-			mb := r.member()
+		addTo := func(i int, mb *c03Member) {
 			r.vs[i].Add(mb.v)
 			c.API("ValueSet.Add")
 			if mb.exact {
@@ -468,6 +465,30 @@ func simC03Sets(c *Ctx) {
 				c.Probe("c03.add-unknown-member")
 			}
 			c.Event("step %d: vs%d.Add(%s)", st, i, mb.d)
+		}
+		// a fresh set (a copy, an algebra result) and the sets it was made from diverge at once: each gets a
+		// member of its own, then all of them are read again (whatever they still share shows now)
+		diverge := func(fresh int, sources ...int) {
+			if c.G(2) != 0 {
+				return
+			}
+			addTo(fresh, r.member())
+			for _, s := range sources {
+				if s != fresh {
+					addTo(s, r.member())
+				}
+			}
+			r.checkVS(fresh, "diverging Add (fresh set)")
+			for _, s := range sources {
+				r.checkVS(s, "diverging Add (source set)")
+			}
+			c.Probe("c03.diverge-at-once")
+		}
+		switch kind {
+		case 0, 1: // Add
+			i := pickVS()
+			mb := r.member()
+			addTo(i, mb)
 			r.checkVS(i, fmt.Sprintf("Add(%s)", mb.d))
 		case 2: // Remove
 			i := pickVS()
@@ -489,6 +510,7 @@ func simC03Sets(c *Ctx) {
 			c.Fired("helper.fork")
 			c.Event("step %d: vs%d = vs%d.Copy()", st, j, i)
 			r.checkVS(j, "Copy")
+			diverge(j, i)
 		case 4: // algebra on ValueSets
 			i, j := pickVS(), pickVS()
 			op := c.G(4)
@@ -515,6 +537,7 @@ func simC03Sets(c *Ctx) {
 			r.checkVS(k, algNames[op])
 			r.checkVS(i, algNames[op]+" (receiver)")
 			r.checkVS(j, algNames[op]+" (argument)")
+			diverge(k, i, j)
 		case 5: // SetVal of a drawn multiset in two different orders
 			cnt := 1 + c.G(8)
 			idx := make([]int, cnt)
